@@ -119,10 +119,17 @@ def index_text(name, text):
     f.apply_change({"text": text})
     srv.workspace[path] = f
     bad = []
+    on_disk = f'#include "{name}"' in text   # a text that includes itself: the included copy is read from disk
+    if on_disk:
+        with open(path, "w") as fh:
+            fh.write(text)
     try:
         ok, err = srv.update_workspace_file(path, update_links=True)
     except Exception as e:  # noqa  (escapes the handler: the update is abandoned half-way)
         return [("update", type(e).__name__, _site(e.__traceback__), str(e)[:120])]
+    finally:
+        if on_disk:
+            os.unlink(path)
     if err is not None or not ok:
         # re-run the parser alone to learn where it raised
         try:
@@ -186,6 +193,7 @@ def fragment_cases(maxlen):
 PP_LINES = [
     "#define A 1", "#define A", "#define A(x) (x)", "#define A(x, y) x+y", "#undef A", "#define B A", "#define A 1 \\",
     "y = A", "y = A(1)", "y = A(1, 2) + B", "#ifdef A", "#if A", "#if A(1) > 0", "#else", "#endif", "integer :: A",
+    "#include \"k.F90\"",   # the file includes itself (twice in one file: the work must not double per level)
 ]
 
 
@@ -238,20 +246,28 @@ LONG = [
     "enumerator :: colour_red = 1, colour_green = 2, colour_blue = 4, colour_alpha = 8",
     "#define APPLY_TWICE(function_name, argument_value) function_name(function_name(argument_value))",
     "#if defined(HAVE_LONG_FEATURE_NAME) && (FEATURE_LEVEL_VALUE > 2 || defined(OTHER_FEATURE_NAME))",
+    # uses of function-like macros (the first line defines them)
+    "#define CHECK_STATUS(status_value, message_text) call check(status_value, message_text)\n"
+    "CHECK_STATUS(allocation_status_of_the_work_array_buffer, 'could not allocate (work)')",
+    "#define WRAP_CALL(procedure_name) procedure_name , wrap_/**/procedure_name\n"
+    "generic, public :: assignment_operator_set => WRAP_CALL(assign_from_another_container_object)",
 ]
 SUBST = [".", "(", ")", "'", "%", "=", ",", "&"]
 
 
 def long_cases(full):
-    for k, stmt in enumerate(LONG):
+    for k, entry in enumerate(LONG):
+        prelude, _, stmt = entry.rpartition("\n")
         variants = [(stmt[:i], f"long[{k}] prefix {i}") for i in range(1, len(stmt) + 1)]
         for ch in (SUBST if full else SUBST[:4]):
             variants += [(stmt[:i] + ch + stmt[i + 1:], f"long[{k}] char {i} -> {ch!r}") for i in range(len(stmt)) if stmt[i] != ch]
         for text, desc in variants:
             for name, fixed in (KINDS if full else (("k.f90", False), ("k.F90", False), ("k.F", True))):
-                if text.startswith("#") and not name.endswith(("F90", "F")):
+                if (text.startswith("#") or prelude) and not name.endswith(("F90", "F")):
                     continue
                 body = text if (text.startswith("#") or not fixed) else fixed_form(text)
+                if prelude:
+                    body = prelude + "\n" + body
                 yield ("long_statements", name, body + "\n", desc)
                 yield ("long_statements", name, ("module m\ncontains\n" if not fixed else fixed_form("module m") + "\n" + fixed_form("contains") + "\n")
                        + body + "\n" + ("end module m\n" if not fixed else fixed_form("end module m") + "\n"), desc + " in module")
